@@ -32,7 +32,7 @@ func checkC10(c *Ctx) {
 
 	// ---------------- R10.3 ----------------
 	c1Pairing(c, "R10.3")
-	c1Namespace(c, "R10.3")
+	c1Namespaces(c, "R10.3")
 	c10Reflected(c, "R10.3")
 
 	// ---------------- R10.4 ----------------
